@@ -31,12 +31,14 @@ void ProxyIOGateway :: HandleIncomingByteBuffer(AbstractGatewayMessageReceiver &
       if (GetMaximumPacketSize() > 0)
       {
          // packet-IO implementation
-         _fakePacketReceiveIO.SetBuffersToRead(buf, fromIAP);
-         _slaveGateway()->SetDataIO(DummyDataIORef(_fakePacketReceiveIO));
+         // Note that the fake packet-IO's maximum-packet-size has to be at least as large as (buf), or the slave gateway
+         // (which reads at most one maximum-size packet) would see only the first part of a large re-assembled buffer.
+         ByteBufferPacketDataIO fakePacketReceiveIO(buf, fromIAP, muscleMax(buf()->GetNumBytes(), _fakePacketReceiveIO.GetMaximumPacketSize()));
+         _slaveGateway()->SetDataIO(DummyDataIORef(fakePacketReceiveIO));
          _scratchReceiver    = &receiver;
          _scratchReceiverArg = (void *) &fromIAP;
          (void) _slaveGateway()->DoInput(*this, buf()->GetNumBytes());
-         _fakePacketReceiveIO.ClearBuffersToRead();
+         _slaveGateway()->SetDataIO(oldIO);  // must not leave the slave gateway pointing at our stack-object
       }
       else
       {
